@@ -197,6 +197,11 @@ class Collocator:
             filesets[1], start=start, end=end, max_interval=max_interval,
         ))
 
+        if not matches:
+            # No files overlap each other, so there is nothing to collocate:
+            self._info("Found no matching files!")
+            return
+
         if processes is None:
             processes = 1
 
